@@ -293,8 +293,10 @@ def program_case(n, groups, programs, mode):
     srcs = []
     for gi, specs in enumerate(groups):
         ems = []
-        for i, (st, nrd, rep, r, dl) in enumerate(specs):
-            e = E.make_emission(st, nrd, dl, rep, False, 1, 0, rate=r / 1024.0)
+        for i, sp in enumerate(specs):
+            st, nrd, rep, r, dl = sp[:5]
+            inter, adur, idur = (sp[5], sp[6], sp[7]) if len(sp) > 5 else (False, 1, 0)
+            e = E.make_emission(st, nrd, dl, rep, inter, adur, idur, rate=r / 1024.0)
             e._emissions_id = str(i)
             e._verif_src = gi
             ems.append(e)
@@ -334,7 +336,8 @@ def program_oracle(n, groups, programs, records):
             out.append(("C01:program-vs-scenario", f"program {p} reports emissions {sorted(recs)} but the scenario holds "
                                                    f"{sorted(want)} within the period"))
             continue
-        for key, (st, nrd, rep, r, dl) in sorted(want.items()):
+        for key, sp in sorted(want.items()):
+            st, nrd, rep, r, dl = sp[:5]
             got = recs[key]
             if got[:3] != (st, r, rep):
                 out.append(("C01:identity-vs-scenario", f"program {p}, emission {key}: (start, rate, repairable) = {got[:3]} "
@@ -354,6 +357,9 @@ def _program_world(rng):
     groups = []
     for _ in range(rng.choice([1, 2, 2, 3])):
         rep_src = rng.random() < 0.6            # a source is repairable or not
+        # ... and persistent or intermittent (on / off durations, also > 1: a program may end the emission in the
+        # pause phase while the baseline ends it in the emitting phase)
+        inter_kind = rng.choice([(False, 1, 0), (False, 1, 0), (True, 2, 5), (True, 1, 2), (True, 3, 3), (True, 2, 1)])
         specs = []
         for _ in range(rng.randint(0, 4)):
             nrd = rng.randint(1, 9)
@@ -364,7 +370,8 @@ def _program_world(rng):
                 st = n - nrd + rng.choice([-1, 0, 0, 1])   # natural end on / next to the last simulated day
             else:
                 st = rng.randint(-nrd, n)
-            specs.append((max(st, -nrd), nrd, rep_src, rng.choice([256, 512, 1024, 2048]), rng.choice([0, 0, 0, 1, 2])))
+            specs.append((max(st, -nrd), nrd, rep_src, rng.choice([256, 512, 1024, 2048]), rng.choice([0, 0, 0, 1, 2]))
+                         + inter_kind)
         groups.append(sorted(specs, key=lambda x: x[0]))
     programs = [[]]                              # program 0: the baseline
     for _ in range(rng.randint(1, 3)):
@@ -380,7 +387,7 @@ def program_stage(ctx):
         n, groups, programs, mode = _program_world(ctx.rng)
         cases.append((n, groups, programs, mode))
         lines += ["reset"] + ["src [" + ",".join("[%d,%d,%d,%d,%d]" % (i, st, r, int(rep), nrd)
-                                                 for i, (st, nrd, rep, r, dl) in enumerate(specs)) + "]" for specs in groups]
+                                                 for i, (st, nrd, rep, r, dl, *_k) in enumerate(specs)) + "]" for specs in groups]
         lines.append("expectedfull %d" % n)
         pos.append(len(lines) - 1)
     out = LeanDriver("drv_heap").run(lines)
@@ -416,6 +423,8 @@ def program_stage(ctx):
             ctx.count("program_cases_nonrepairable_expiring_on_last_days_among_several")
         if any(v[4] == "repaired" for recs in records[1:] for v in recs.values()):
             ctx.count("program_cases_with_repairs")
+        if any(sp[5] for sp in flat):
+            ctx.count("program_cases_with_intermittent_emissions")
         ctx.nontrivial.add(("prog", mode, n, repr(groups), repr(programs)))
     ctx.sample({"program_case": cases[0]})
 
@@ -616,6 +625,12 @@ def judge_simulation(ctx, res, cfg, mode, sim, record=True):
     if unsorted:
         viol("C01:scenario-list-not-sorted", "a generated pending list is not sorted by start date",
              {"cfg": cfg, "mode": mode, "sim": sim, "source": unsorted[0]})
+    # the scenario's natural repair delay / duration is the one the CONFIGURATION gives that kind of emission
+    want_dur = {True: int(cfg["rep"]["duration"]), False: int(cfg["nonrep"]["duration"])}
+    off = next(((k, e._emissions_id, _nrd(e)) for k, lst in sources for e in lst if _nrd(e) != want_dur[bool(e._repairable)]), None)
+    if off:
+        viol("C01:scenario-vs-configuration", "a pre-generated emission's natural repair delay / duration is not the configured one",
+             {"cfg": cfg, "mode": mode, "sim": sim, "source": off[0], "emission": off[1], "scenario": off[2], "configured": want_dur})
     want = sorted((r[0], r[1], r[2], str(r[3]), r[4], str(r[5]), r[6]) for r in rows if r[5] <= end)
     per_prog = {}
     for prog in res.programs:
@@ -713,6 +728,18 @@ def judge_simulation(ctx, res, cfg, mode, sim, record=True):
     return raised
 
 
+def prev_of_kind(cfg, kind, seed=0):
+    """`W.prev_variant` with the wanted `what_differs` (the shared helper draws the kind from its rng)"""
+    import random as _r
+    from harness import wholerun as W
+
+    for k in range(400):
+        prev, what = W.prev_variant(cfg, _r.Random(seed * 1009 + k))
+        if what == kind:
+            return prev, what
+    return W.prev_variant(cfg, _r.Random(seed))
+
+
 def whole_jobs(ctx):
     from harness import wholerun as W
 
@@ -782,6 +809,61 @@ def whole_jobs(ctx):
         jobs.append((cfg, True, 1, "debug"))
         if not ctx.quick:
             jobs.append((dict(cfg), False, 2, "pool"))
+    # "wide" configurations (harness/wholerun.py `_wide_catalogue`): leaves and boundary values the base generator
+    # never produces.  The oracle reads every leaf it depends on from the cfg: number of simulations (one scenario
+    # file and one set of records per simulation number), emission durations (natural end = start + duration of the
+    # CONFIGURATION), period; what the methods do (coverage 0, crew counts, workday, delays, frequencies, months,
+    # years, weather, follow-up rules, repair delay 0) must not matter at all.
+    WIDE_TAGS = ["durations", "repairs", "sims", "coverage", "crews", "workday", "delays", "freq", "months", "years",
+                 "weather", "followup"]
+    wide_plan = [["durations", "repairs", "sims"], True, ["coverage", "crews", "workday"], ["delays", "freq", "months", "years"],
+                 ["weather", "followup"], WIDE_TAGS, ["sims"], ["durations"], ["repairs", "coverage"], True, ["sims-batch"],
+                 ["fractional"]]
+    for j, tags in enumerate(wide_plan[:ctx.pick(2, 12)]):
+        cfg = W.make_config(ctx.rng, wide=tags, ndays=[120, 200][j % 2], n_sites=4 + j % 2, pre_sim_emissions=True)
+        if j == 0:
+            # whatever the catalogue drew: 1-/2-day emissions, repair delay 0, two simulation numbers
+            cfg["rep"]["duration"], cfg["nonrep"]["duration"], cfg["repair_delay"], cfg["n_sims"] = 1 + j % 2, 1, [0], 2
+            cfg["wide_applied"] = cfg.get("wide_applied", []) + [{"tag": "focus", "path": ["c", "rep", "duration"], "value": 1 + j % 2},
+                                                                 {"tag": "focus", "path": ["c", "nonrep", "duration"], "value": 1},
+                                                                 {"tag": "focus", "path": ["c", "repair_delay"], "value": [0]},
+                                                                 {"tag": "focus", "path": ["c", "n_sims"], "value": 2}]
+        if len(cfg["programs"]) < 4:
+            cfg["programs"].append({"name": "P_fix", "methods": ["FIX", "OGI_FU2"]})
+        cfg["wide_tags"] = "all" if tags is True else tags
+        jobs.append((cfg, j % 3 != 2, 1 if j % 3 != 2 else 2, "debug" if j % 3 != 2 else "pool"))
+        ctx.count("wholerun_wide_runs")
+        for a in cfg.get("wide_applied", []):
+            ctx.count("wholerun_wide_leaf:%s=%s" % ("/".join(str(x) for x in a["path"] if x not in ("m", "c")),
+                                                    json.dumps(a["value"])[:40]))
+    # intermittent sources: granular infrastructure whose sources file has persistent = FALSE with on / off durations
+    # > 1 (a repairable and a non-repairable one), enough emissions, and an OGI program that tags and repairs them at
+    # arbitrary phases of the emit / pause cycle; the "True" Rate of every record is compared with the scenario and
+    # between all programs like every other identity column
+    cfg = W.make_config(ctx.rng, n_sims=ctx.pick(1, 2), granular=True, ndays=150, n_sites=5, pre_sim_emissions=True,
+                        consider_weather=False, daylight=None, repair_delay=[0, 3],
+                        sources=[
+                            {"component": "compA", "source": "sA", "repairable": True, "persistent": True, "active": 1, "inactive": 0},
+                            {"component": "compB", "source": "sB", "repairable": False, "persistent": False, "active": 3, "inactive": 2},
+                            {"component": "compB", "source": "sC", "repairable": True, "persistent": False, "active": 2, "inactive": 5}],
+                        rep={"epr": 0.0625, "duration": 60, "multi": True},
+                        nonrep={"epr": 0.015625, "duration": 45, "multi": True})
+    cfg["methods"]["OGI"].update(reporting_delay=1, crew_count=2, survey_time=30, surveys_per_year=12,
+                                 months=list(range(1, 13)), spatial=1.0, mdl=0.125, consider_daylight=False)
+    cfg["programs"] = [p for p in cfg["programs"] if p["name"] in ("P_none", "P_OGI", "P_air")]
+    cfg["intermittent_focus"] = True
+    jobs.append((cfg, True, 1, "debug"))
+    if not ctx.quick:
+        jobs.append((dict(cfg), False, 2, "pool"))
+    # "history" shape: an earlier configuration that differs in ONE defining leaf is run first in the same folder
+    # (generator folder and outputs left as that run left them), then cfg; every oracle is applied to the second run
+    kinds = ["period-start", "n-sims", "site-count", "rates", "duration", "pre-sim"]
+    for j, kind in enumerate(kinds[:ctx.pick(1, 4)]):
+        cfg = W.make_config(ctx.rng, n_sims=2, ndays=[150, 120][j % 2], n_sites=4, pre_sim_emissions=True)
+        prev, what = prev_of_kind(cfg, kind, seed=j)
+        cfg["history"] = what
+        jobs.append((cfg, True, 1, "debug", prev))
+        ctx.count("history:" + what)
     # zero repair and reporting delays + pre-simulation emissions at the exact boundary: single-emission repairable
     # sources with a high production rate, so that many sources carry an emission that began exactly `duration` days
     # before the first day (the oldest date the generator can produce); OGI visits every site on the first day
@@ -815,14 +897,20 @@ def whole_stage(ctx):
 
     jobs = whole_jobs(ctx)
     with cf.ThreadPoolExecutor(max_workers=8) as ex:
-        results = list(ex.map(lambda j: W.run_config(j[0], debug=j[1], processes=j[2], trace=False), jobs))
+        results = list(ex.map(lambda j: (W.run_after(j[4], j[0], debug=j[1], processes=j[2], trace=False) if len(j) > 4
+                                         else W.run_config(j[0], debug=j[1], processes=j[2], trace=False)), jobs))
     ok_modes = {"debug": 0, "pool": 0, "chunked": 0}
     last_log = ""
     crashed = []
     try:
-        for k, ((cfg, debug, procs, label), res) in enumerate(zip(jobs, results)):
+        for k, (job, res) in enumerate(zip(jobs, results)):
+            cfg, debug, procs, label = job[:4]
             mode = {"debug": debug, "processes": procs, "program_order": [p["name"] for p in cfg["programs"]],
                     "n_sims": cfg["n_sims"]}
+            if len(job) > 4:
+                mode["run_before_in_the_same_folder"] = job[4]
+                if getattr(res, "prev_rc", 0) != 0:
+                    ctx.count("history_first_run_stopped")
             sims = list(range(res.n_sims))
             if res.rc != 0:
                 ctx.count("wholerun_config_crashed")
@@ -840,12 +928,31 @@ def whole_stage(ctx):
                 judge_simulation(ctx, res, cfg, mode, sim)
             if res.rc != 0:
                 continue
+            if res.n_sims > 1:
+                scen = [repr(sorted(scenario_rows(res, sm)[0])) for sm in sims]
+                ctx.count("wholerun_runs_several_simulations")
+                if len(set(scen)) == len(scen):
+                    ctx.count("wholerun_runs_every_simulation_number_its_own_scenario")
+                elif any(x != "[]" for x in scen):
+                    ctx.count("wholerun_runs_with_two_simulation_numbers_sharing_a_scenario")
+                    ctx.note("two simulation numbers of one run have the same non-empty scenario (C16's concern; not judged "
+                             "here): period %s..%s, %s emissions per scenario, wide %s"
+                             % (cfg["start"], cfg["end"], [len(scenario_rows(res, sm)[0]) for sm in sims], cfg.get("wide_tags")))
             ctx.sample({"whole_run": mode, "sites": cfg["n_sites"], "granular": cfg["granular"],
                         "period": [cfg["start"], cfg["end"]]}, cap=8)
             ctx.count("wholerun_runs")
             ctx.count("wholerun_runs_n_sims_%d" % cfg["n_sims"])
             if cfg.get("site_extra_cols"):
                 ctx.count("wholerun_runs_with_site_deployment_columns")
+            if cfg.get("intermittent_focus"):
+                ctx.count("wholerun_runs_intermittent_focus")
+                for sim in sims:
+                    for prog in res.programs:
+                        for r in res.emissions(prog, sim) or []:
+                            if r["Component"].startswith("compB") and r["Repairable"] == "True":
+                                ctx.count("wholerun_intermittent_repairable_records")
+                                if r["Status"] == "repaired" and r["Tagged By"] not in ("natural", "", "None"):
+                                    ctx.count("wholerun_intermittent_repairable_records_repaired_by_a_program")
             if cfg.get("zero_delay_boundary"):
                 ctx.count("wholerun_runs_zero_delays")
                 for sim in sims:
@@ -930,7 +1037,11 @@ def run(ctx):
 
 
 def _replay_whole(ctx, inp, mode, sig, W):
-    res = W.run_config(inp["cfg"], debug=mode["debug"], processes=mode["processes"], trace=False)
+    if mode.get("run_before_in_the_same_folder"):
+        res = W.run_after(mode["run_before_in_the_same_folder"], inp["cfg"], debug=mode["debug"],
+                          processes=mode["processes"], trace=False)
+    else:
+        res = W.run_config(inp["cfg"], debug=mode["debug"], processes=mode["processes"], trace=False)
     try:
 
         if res.rc != 0:
